@@ -16,8 +16,8 @@ type group struct {
 // ---- value alphabet ----
 
 // atoms: the "nasty atoms" of DESIGN.md section 3 (simplest first) plus quote,
-// backslash, apostrophe, '<', HTAB, CR LF and NUL.
-var atoms = []BS{"a", "", " ", "+", "%", "%2F", "%25", "/", "?", "#", ":", "*", "=", ";v=1", "{q}", "}", ".", "..",
+// backslash, apostrophe, '<', '|', HTAB, CR LF, NUL and a mixed-case word.
+var atoms = []BS{"a", "", "Ab", " ", "+", "%", "%2F", "%25", "/", "?", "#", ":", "*", "=", ";v=1", "{q}", "}", ".", "..",
 	"a b", "a+b", "a&b=c", "a,b", "é", "日本", "\x80", `"`, `\`, "'", "<", "|", "\t", "\r\n", "\x00"}
 
 // core: the atoms whose pairs are swept in the quick tier.
@@ -657,6 +657,46 @@ func families(full bool) []group {
 			add(sweep("triples-form-urlencoded", g, 0, part))
 		}
 	}
+	// 14e. long values in every position
+	{
+		var long []BS
+		for _, n := range []int{255, 256, 4096, 65536} {
+			for _, unit := range []string{"a", "é/ ", "%+"} {
+				b := make([]byte, 0, n+4)
+				for len(b) < n {
+					b = append(b, unit...)
+				}
+				long = append(long, BS(b[:n]))
+			}
+		}
+		long = filter(long, func(s string) bool { return validHeaderValue(s) })
+		for _, kind := range []string{"json", "urlencoded", "multipart"} {
+			c := base
+			c.Method, c.Template, c.Consumes = "POST", "/items/{id}", kind
+			c.Params = []P{{Name: "id", In: "path", Type: "string"}, {Name: "q", In: "query", Type: "string"}, {Name: "X-Val", In: "header", Type: "string"}}
+			if kind == "json" {
+				c.Params = append(c.Params, P{Name: "body", In: "body", Type: "object"})
+			} else {
+				c.Params = append(c.Params, P{Name: "f", In: "form", Type: "string"})
+			}
+			kind := kind
+			add(group{"long-values", len(long), func(i int) Case {
+				d := with(c)
+				v := long[i]
+				for k := 0; k < 3; k++ {
+					d.Params[k].V = []BS{v}
+				}
+				if kind == "json" {
+					d.Params[3].Body = []F{{K: "s", T: "s", V: v}}
+				} else {
+					d.Params[3].V = []BS{v}
+				}
+				d.Resp = Resp{Status: 200, Kind: "text", Text: v, H: []H{{K: "X-Echo", V: []BS{v}}}}
+				d.Produces = "text"
+				return d
+			}})
+		}
+	}
 	// 15. media types spelled with parameters or in another case
 	spell := []string{"application/json; charset=utf-8", "application/json;charset=UTF-8"}
 	for _, sp := range spell {
@@ -695,4 +735,40 @@ func families(full bool) []group {
 	}
 	_ = fmt.Sprint
 	return gs
+}
+
+// familyAxes states, for the evidence file, what each family multiplies.
+// "values" = every atom and every concatenation of two atoms (value_alphabet_size);
+// quick uses the first entries of each configuration axis, thorough all of them.
+var familyAxes = map[string]string{
+	"path-one-placeholder":    "templates {/items/{id}, /{id}, /items/{id}/sub, /items/{id}.json, /a/b/c/{id}} x base paths {/api, /, /api/v1, /api/, \"\"} x methods {GET POST PUT DELETE PATCH HEAD OPTIONS} x values",
+	"path-two-placeholders":   "templates {/items/{a}/{b}, /{a}/{b}, /items/{a}/x/{b}} x base paths {/api, /} x atoms x atoms",
+	"query-scalar":            "parameter names {q, $top, filter[a], 'a b', é, a&b=c, %41} x base paths {/api, /} x values; plus a path value with ?# next to a query value x values",
+	"query-array":             "collectionFormat {none csv ssv tsv pipes multi} x item lists (empty, every 1-list and 2-list over the atoms, every 3-list over 5 items)",
+	"header-scalar":           "declared names {X-Val, X-Request-Id, Etag, x-val, X-VAL, X-Request-ID, X_Val} x every value that is a valid HTTP field value; plus the atoms that are not (outside the guarantee)",
+	"header-array":            "collectionFormat {none csv pipes} x item lists over the valid atoms",
+	"form-urlencoded":         "methods {POST PUT PATCH DELETE} x auth writer {no, yes} x values; field names {$top, filter[a], 'a b', é, a&b=c} x atoms",
+	"form-urlencoded-array":   "collectionFormat {none csv ssv tsv pipes multi} x item lists",
+	"form-multipart":          "methods {POST PUT PATCH DELETE} x auth writer x values; field names {$top, filter[a], 'a b', é, a\"b, a\\b, a;b} x atoms",
+	"form-multipart-array":    "collectionFormat {csv pipes multi} x item lists",
+	"file":                    "lengths {0 1 2 511 512 513 5000 70000} x 18 file names (quotes, backslashes, directories, non-ASCII, empty, dot-dot, control bytes) x 2 content patterns x with/without a form field x auth writer; file parameter names x lengths; two files x lengths x lengths; 1 MiB and 5 MiB files",
+	"body-json":               "methods {POST PUT PATCH DELETE} x auth writer x values (as string member, key suffix, array element, nested member); pairs of 15 numeric/boolean/null members (int64 and float64 boundaries); array-of-string bodies x item lists; body next to path, query and header values x atoms",
+	"body-string-schema":      "{text/plain, application/octet-stream, JSON string} x auth writer x atoms",
+	"typed-scalar":            "location {path query header urlencoded-form multipart-form} x {integer int64/int32/none, number double/float/none, boolean} x boundary literals",
+	"typed-array":             "location {query form header} x item type x {csv multi} x (empty, every 1-list, every 2-list of the boundary literals)",
+	"response-status":         "methods {GET POST PUT DELETE HEAD} x body kind {none json json-array text bytes} x statuses {200 201 202 204 400 401 403 404 409 422 500 503}, two response headers (one multi-valued, one with a lower-case name)",
+	"response-header":         "status {200 404} x every valid field value, once alone and once in a two-valued header",
+	"response-body":           "status {200 404} x {text bytes json} x values; JSON numbers at the boundaries; bodies of 1..1 MiB",
+	"response-plain-payload":  "handler returns the payload itself: success code of the description {200 201 202 204} x {json json-array text bytes} x atoms",
+	"response-error":          "handler returns an error: statuses {400 401 403 404 409 422 500 503} x produces {json text} x atoms as message",
+	"combined":                "base paths {/api, /} x auth writer x {json body, urlencoded field, multipart field} x every value valid in all positions, the same value in path, query, header and body/field, echoed in a response header and body with status 201",
+	"sibling-operations":      "descriptions with 3-4 other operations (same template under another method, longer and shorter templates): base paths {/api, /} x methods {GET PUT} x values (one placeholder) and atoms x atoms (two placeholders)",
+	"long-values":             "lengths {255 256 4096 65536} x 3 repeating units, the same value in path, query, header, body/field and echoed back",
+	"media-type-spelling":     "consumes / produces spelled with a charset parameter (application/json, text/plain)",
+	"template-shape":          "base paths {/api, /} x templates {/, /items/, /items/{id}/, literals with space, non-ASCII, '+', ':', ';'} x methods {GET POST}; base paths with space, non-ASCII, ';'",
+	"triples-path":            "thorough: every concatenation of three atoms as a path value",
+	"triples-query":           "thorough: every concatenation of three atoms as a query value",
+	"triples-header":          "thorough: every concatenation of three atoms that is a valid field value as a header value",
+	"triples-form-multipart":  "thorough: every concatenation of three atoms as a multipart field value",
+	"triples-form-urlencoded": "thorough: every concatenation of three atoms as an urlencoded field value",
 }
